@@ -10,7 +10,7 @@ import backends as B
 import harness as H
 import plans
 
-GEN = []
+GEN = ["Aggr"]
 RULE = ("P (plan capture): for random requests (subsets of count / mean / var / cov over up to 4 columns, duplicates and "
         "unsorted pairs, grouped and ungrouped) the plan reified from the REAL narwhals builder and from both branches of "
         "the REAL ibis builder must equal model/ReadPlan.plan_of_spec (plan_eqb by vm_compute). X (backends): "
@@ -29,6 +29,8 @@ ASSUMES = ["C01_engine_partial: that each of the five engines evaluates a captur
            "(_cov__a__b) of distinct requests do not collide (see known finding)"]
 
 COLS = ["x", "y", "z", "w"]
+# legal but unusual column names (every backend accepts them on the unchanged tree): empty, blank, keyword-like, quoted
+EXOTIC = ["", " ", "a b", "\u00fc", "x'y", "select", "0", "A", "x.y", "%s", "None", "count", "variant ", "mean_", "_"]
 
 
 def rand_request(rng, cols=COLS):
@@ -113,7 +115,31 @@ def rand_table(rng, n_variants, id_kind):
     return data, ids, style
 
 
-def exact_stats(data, rows):
+def accessor_fails(a, req, v):
+    """the public accessors (what every metric reads) must return the stored statistics; None names mean the constant 1"""
+    same = lambda x, y: x == y or (x != x and y != y)
+    out = []
+    try:
+        if req["has_count"] and a.count() != a.count_:
+            out.append(f"count()[{v!r}] = {a.count()} but count_ = {a.count_}")
+        for c in a.mean_:
+            if not same(a.mean(c), a.mean_[c]):
+                out.append(f"mean({c!r})[{v!r}] = {a.mean(c)} but the statistic read is {a.mean_[c]}")
+        for c in a.var_:
+            if not same(a.var(c), a.var_[c]):
+                out.append(f"var({c!r})[{v!r}] = {a.var(c)} but the statistic read is {a.var_[c]}")
+        for (p, q) in a.cov_:
+            for l, r in ((p, q), (q, p)):
+                if not same(a.cov(l, r), a.cov_[(p, q)]):
+                    out.append(f"cov({l!r},{r!r})[{v!r}] = {a.cov(l, r)} but the statistic read is {a.cov_[(p, q)]}")
+        if (a.mean(None), a.var(None)) != (1, 0) or any(a.cov(None, c) != 0 or a.cov(c, None) != 0 for c in a.mean_):
+            out.append("accessors with a None name are not the constant-1 column")
+    except Exception as e:  # noqa: BLE001
+        out.append(f"accessor raised {type(e).__name__}: {e}")
+    return out
+
+
+def exact_stats(data, rows, COLS=COLS):
     def col(c):
         return [F(data[c][i]) for i in rows]
     n = len(rows)
@@ -128,6 +154,13 @@ def check_backend(case):
     rng = random.Random(case["seed"])
     data, ids, style = rand_table(rng, case["n_variants"], case["id_kind"])
     req = case["request"]
+    ren = case.get("names") or {}
+    if ren:   # the same table and request under unusual column names
+        data = {ren.get(k, k): v for k, v in data.items()}
+        req = {"has_count": req["has_count"], "mean_cols": [ren.get(c, c) for c in req["mean_cols"]],
+               "var_cols": [ren.get(c, c) for c in req["var_cols"]],
+               "cov_cols": [[ren.get(c, c) for c in p] for p in req["cov_cols"]]}
+    cols = [ren.get(c, c) for c in COLS]
     fails = []
     try:
         tab = B.make_table(case["backend"], data)
@@ -152,7 +185,8 @@ def check_backend(case):
     eps = 2.0 ** -52
     for v, rows in groups.items():
         a = res[v]
-        n, m, cv, mx = exact_stats(data, rows)
+        n, m, cv, mx = exact_stats(data, rows, cols)
+        fails += accessor_fails(a, req, v)
         if req["has_count"] and a.count_ != n:
             fails.append(f"count[{v!r}] = {a.count_} != {n}")
         if not req["has_count"] and a.count_ is not None:
@@ -186,6 +220,8 @@ def oracle(ctx, deep=False):
                 "n_variants": ctx.rng.choice([1, 2, 2, 3, 4]) if id_kind != "bool" else 2,
                 "grouped": ctx.rng.random() < 0.75, "request": rand_request(ctx.rng), "seed": ctx.rng.randint(0, 10**9),
                 "rechunk": ctx.rng.random() < 0.5}
+        if ctx.rng.random() < 0.3:
+            case["names"] = dict(zip(COLS, ctx.rng.sample(EXOTIC, len(COLS))))
         case["request"]["cov_cols"] = [list(p) for p in case["request"]["cov_cols"]]
         fails = check_backend(case)
         ctx.evaluations += 1
